@@ -1044,7 +1044,12 @@ class Analyzer:
             S = self.slice_of_iter(fn, t["args"][0], st)
             if S:
                 pv = ("v", D + ".@Some.0.0")
-                post.append(("optf", "Some", [(pv, ("#", S), -1), (Z, pv, 0)], S))
+                post.append(("optf", "Some", [(pv, ("#", S), -1), (Z, pv, 0), (pv, Z, (1 << 63) - 2)], S))
+            elif t["argtys"] and any(x in t["argtys"][0] for x in ("core::slice::iter::Iter<", "core::slice::iter::IterMut<", "alloc::vec::into_iter::IntoIter<",
+                                                                   "alloc::vec::drain::Drain<")):
+                # elements of an in-memory sequence: there are at most isize::MAX of them, so the number of one is below that
+                pv = ("v", D + ".@Some.0.0")
+                post.append(("optf", "Some", [(pv, Z, (1 << 63) - 2), (Z, pv, 0)], None))
         elif name_is("Option::<T>::map") and nargs == 2 and A[0]:
             # Some(x) -> Some(f(x)): compose the Some-facts of the receiver with the closure's summary
             e = df.operand_expr(fn, t["args"][1])
